@@ -4,7 +4,7 @@
    Only statements; every proof is `exact <lemma>`. *)
 From Coq Require Import ZArith List Bool.
 From GV.Model Require Import Reward.
-From GV.Lemmas Require Import GridL C12L.
+From GV.Lemmas Require Import GridL C12L BfsL.
 Import ListNotations.
 Open Scope Z_scope.
 
@@ -95,3 +95,18 @@ Example C12_example :
               = Ok (RSumOf [RParam 0; RParam 0; RParam 0; RZero])
   /\ terminates (TAny [TBumpWall; TReachExit]) s MOVE_FORWARD s' = Ok true.
 Proof. cbv zeta. split; [split; [apply wf_gridb_spec; vm_compute; reflexivity | vm_compute; reflexivity] | split; vm_compute; reflexivity]. Qed.
+
+(* distance shaping by shortest path: the breadth-first search behind getting_closer_shortest_path (the model of `dijkstra`) returns
+   exactly the minimal number of moves between 4-neighbours over cells that are inside the grid and do not block movement (the source
+   cell itself excepted, as in the code), and None (infinity) exactly when the destination cannot be reached; the fuel is always enough *)
+Theorem C12_shortest_path_sound : forall g src dst d, shortest g src dst = Some d -> 0 <= d /\ exactly g src (Z.to_nat d) dst.
+Proof. exact shortest_sound. Qed.
+Theorem C12_shortest_path_none : forall g src dst, wf_grid g -> shortest g src dst = None -> forall n, ~ walk g src dst n.
+Proof. exact shortest_none. Qed.
+Theorem C12_shortest_path_complete : forall g src dst n, wf_grid g -> walk g src dst n ->
+  exists d, shortest g src dst = Some d /\ (Z.to_nat d <= n)%nat /\ exactly g src (Z.to_nat d) dst.
+Proof. exact shortest_complete. Qed.
+Example C12_example_shortest :
+  let g := [[Floor; Wall; Floor]; [Floor; Wall; Floor]; [Floor; Floor; Floor]] in
+  shortest g (0, 0) (0, 2) = Some 6 /\ shortest [[Floor; Wall; Floor]] (0, 0) (0, 2) = None.
+Proof. vm_compute. split; reflexivity. Qed.
